@@ -53,6 +53,9 @@ AskSim ==
                 \E K \in {IF K0 = {} THEN Ids ELSE IF KeyMode = "closed" \/ RandomElement(1..2) = 1 THEN Close(D, K0) ELSE K0} :
                     AskWith(t, K, 0, {})
            [] t = "walk" -> \E r \in Pick(Ids) : AskWith("walk", {}, r, {})
+           [] t = "specs" ->
+                LET ok == {r \in Ids : SpecsAskable(EffProg(prog, adds, Len(adds)), adds, Len(adds), r)} IN
+                IF ok = {} THEN AskWith("basic", {}, 0, {}) ELSE \E r \in Pick(ok) : AskWith("specs", {}, r, {})
            [] OTHER -> \E r \in Pick(Ids) : \E pres \in {RandSub(Ids)} : AskWith("help", {}, r, pres)
 
 NextSim == DefineSim \/ EndDefineSim \/ AddDepSim \/ EndAddsSim \/ AskSim
